@@ -45,6 +45,9 @@ static inline uint64_t myth_get_rdtsc() {
 }
 
 static inline int hr_gettime(struct timespec * ts) {
+#if defined(MYTH_VERIF)
+  if (myth_verif_gettime(ts)) return 0;
+#endif
 #if defined(HAVE_LIBRT)
   return clock_gettime(CLOCK_REALTIME, ts);
 #else
@@ -70,6 +73,9 @@ static inline void myth_random_init(unsigned int seed) {
 //Return a random integer with a range [min,max)
 static inline int myth_random(int min,int max) {
   int ret;
+#if defined(MYTH_VERIF)
+  if (myth_verif_random(min, max, &ret)) return ret;
+#endif
   if (!g_myth_random_temp){
     myth_random_init(((unsigned)time(NULL)));
   }
